@@ -134,8 +134,9 @@ CLAIMED = {
              'exactly one receipt event with the message identity - a failing one as soon as any segment failed. Tied to the code by driving the real '
              'handlers and correlator with real PDUs (independent encoder) over histories of 1-5 concurrent messages and comparing hook outputs, '
              'throttle counters and all four stores with the model evaluated in Coq.',
-        note='Trusted: Coq kernel, translator, harness + smppref.py. The segmented theorem is proved for one message in isolation (its events in any '
-             'order); mixes of concurrent messages are covered by the correspondence runs and the oracle, not by the theorem. Hypotheses: error codes '
+        note='Trusted: Coq kernel, translator, harness + smppref.py. The segmented theorem holds for ANY NUMBER of messages outstanding at once and any interleaving of their events (C02_concurrent_receipts: '
+             'footprint and frame lemmas over the one-message invariant, Proofs/ConcurrentReceipts.v); mixes with plain messages, duplicates and unknown ids are '
+             'covered by the correspondence runs and the oracle. Hypotheses: error codes '
              'below 65532 (the internal status codes), distinct references among live segmented messages - KNOWN FINDING reference-reuse-while-receipts-pending shows the code fails without it (a message '
              'accepted in full and waiting for receipts loses its status cell to a later message with the same 8-bit reference; reproduced on every run) -, no '
              'expiry during the history. Receipt texts whose echoed text looks like receipt fields are generated. Proved for the code after fix d1270d3 (status cell covers all segments from the first put). No axioms.',
